@@ -16,7 +16,7 @@ from symx import api as S
 from . import oracles as O
 
 PROPERTY = "C02"
-OPTIONS = dict(validate=10, query_timeout_ms=60000, max_paths=3000)
+OPTIONS = dict(validate=10, query_timeout_ms=60000, max_paths=3000, warmup="first")
 STUBS = []
 OUTSIDE = ["stack() of undated images with relative times (stack has no offset argument; times are recomputed from dates)", "IEEE rounding in physical-corner conversion"]
 ASSUMPTIONS = ["dates are concrete datetimes; relative times are symbolic reals", "ROI corner points up to one voxel outside the image (clipped)"]
